@@ -18,6 +18,9 @@ Groups of cases (one forked worker call per case; `g` selects the group):
        verified against every other triple.
   reuse one response configuration dictionary reused for 3 (quick) / 4 (thorough) different challenges, every protocol
        class: each response answers its own challenge and equals the one a fresh dictionary gives.
+  errpath rot_id / private key mismatch: sign() refuses, the caller goes on: export() must raise or hand out only a
+       credential that verifies under keys[rot_id]; again after a second refusal; after a sign() with the right key the
+       export verifies and parses back (every classic / EdgeLock v1 class; key given as rotk, sign_provider, constructor).
   hist object histories per protocol class: from a new / signed / parsed credential object every sequence
        of <= 3 (quick) / 4 (thorough) operations over {sign, export, parse(export) and go on with the parsed
        object, set one field, set another field, set two fields, set two fields to second values}; every
@@ -677,8 +680,9 @@ def judge_classic_object(p: dict, dc: Any, data: bytes, parsed: Optional[dict], 
             if differing:
                 lz = any(R.ilen(knum(k)[c]) < R.COORD_BY_CURVE[knum(k)["curve"]] for k in p["keys"] if knum(k)["type"] == "ecc" for c in ("x", "y"))
                 o.v("rot-hash", "differs-from-image-tools:" + "+".join(t for t, _ in differing),
-                    f"keys {p['keys']}{' (a coordinate starts with a zero byte)' if lz else ''}: calculate_hash() {h_now.hex()[:32]}.. "
-                    f"{differing[0][0]} {differing[0][1].hex()[:32]}..; own construction {want_hash.hex()[:32]}..", scope=p["meta"])
+                    f"keys {p['keys']}{' (a coordinate starts with a zero byte)' if lz else ''}: calculate_hash() {len(h_now)} B {h_now.hex()[:32]}.. "
+                    f"{differing[0][0]} {len(differing[0][1])} B {differing[0][1].hex()[:32]}..; own construction {len(want_hash)} B "
+                    f"{want_hash.hex()[:32]}..", scope=p["meta"])
 
 
 _TOOL_HASH: dict = {}
@@ -1432,6 +1436,92 @@ def w_hist(case: dict) -> dict:
 
 
 # ---------------------------------------------------------------------------------------------
+# error path: sign() refused, the caller goes on with the object
+
+
+def w_errpath(case: dict) -> dict:
+    """rot_id names RoT key i, the private key supplied belongs to another RoT key: sign() refuses (SPSDKError).  A caller
+    that catches the error and goes on (batch generation, "try: sign() except: log") must not be handed an invalid
+    credential: export() raises, or whatever bytes it returns verify under keys[rot_id] over the bytes before the
+    signature; the same after a second refused sign(); after a sign() with the right key the export verifies and parses back."""
+    from spsdk.crypto.signature_provider import get_signature_provider
+    from spsdk.crypto.utils import extract_public_key
+    from spsdk.dat import debug_credential as dcm
+
+    cls = case["cls"]
+    o = Obs(cls)
+    p = plan_classic({**case, "dep": {}})
+    layout = p["layout"]
+    rot_keys = [knum(k) for k in p["keys"]]
+    wrong = p["keys"][(p["used"] + 1) % len(p["keys"])]
+    right_sp = lambda: sp_for(kpath(p["keys"][p["used"]], "priv.pem"), p["pss"])  # noqa
+
+    def judge(data: bytes, stage: str, variant: str) -> None:
+        o.c("errpath_exports_judged")
+        try:
+            parsed = R.parse_dc(data, layout)
+        except (R.DatError, struct.error) as e:
+            o.v("dc-bytes", f"error-path:{stage}:unreadable", f"{variant}: {e}", scope=layout)
+            return
+        named = parsed["rot_key"] == rot_keys[p["used"]] and R.dc_names_key(parsed, rot_keys[p["used"]]) is None
+        ok = named and R.verify_sig(parsed["rot_key"], data[:parsed["sig_off"]], parsed["signature"], pss=p["pss"], fast=True)
+        if not ok:
+            o.v("dc-signature", f"error-path:{stage}:credential-handed-out-does-not-verify-under-named-rot-key",
+                f"variant {variant}: rot_id {p['used']}, private key supplied: {wrong}; export() returned {len(data)} bytes", scope=layout)
+
+    for variant in ("rotk", "sign_provider", "constructor"):
+        cfg = classic_config(p)
+        cfg.pop("rotk", None)
+        cfg.pop("sign_provider", None)
+        if variant == "sign_provider":
+            cfg["sign_provider"] = f"type=file;file_path={kpath(wrong, 'priv.pem')}"
+        else:
+            cfg["rotk"] = kpath(wrong, "priv.pem")
+        if variant == "constructor":
+            klass = {"rsa": dcm.DebugCredentialCertificateRsa, "ecc": dcm.DebugCredentialCertificateEcc, "ele": dcm.DebugCredentialEdgeLockEnclave}[p["meta"]]
+            mklass = {"rsa": dcm.RotMetaRSA, "ecc": dcm.RotMetaEcc, "ele": dcm.RotMetaEdgeLockEnclave}[p["meta"]]
+            st, dc = call(lambda: klass(
+                version=dcm.ProtocolVersion(f"{p['ver'][0]}.{p['ver'][1]}"), socc=p["socc"], uuid=p["uuid"],
+                rot_meta=mklass.load_from_config({"rot_meta": cfg["rot_meta"], "rot_id": p["used"], "flag_ca": p["ca"]}),
+                dck_pub=extract_public_key(cfg["dck"]), cc_socu=p["val"]["socu"], cc_vu=p["val"]["vu"], cc_beacon=p["val"]["beacon"],
+                rot_pub=extract_public_key(cfg["rot_meta"][p["used"]]),
+                signature_provider=get_signature_provider(local_file_key=cfg["rotk"], pss_padding=p["pss"])))
+        else:
+            st, dc = call(dcm.DebugCredentialCertificate.create_from_yaml_config, cfg)
+        if not builder_outcome(o, st, dc, f"errpath-create-{variant}", False):
+            continue
+        o.c("errpath_objects")
+        for attempt in ("after-refused-sign", "after-second-refused-sign"):
+            st, r = call(dc.sign)
+            o.c("errpath_sign_refused" if st == "spsdk" else f"errpath_sign_{st}")
+            if st not in ("ok", "spsdk"):
+                o.observe(f"{cls}:errpath-sign:{st}: {r}")
+            st, data = call(dc.export)
+            if st == "ok":
+                judge(data, attempt, variant)
+            elif st == "spsdk":
+                o.c("errpath_export_refused")
+            else:
+                o.observe(f"{cls}:errpath-export:{st}: {data}")
+        # the caller repairs the key supply and signs again: now the credential must be right
+        dc.signature_provider = right_sp()
+        st, r = call(dc.sign)
+        if st != "ok":
+            o.v("dc-signature", f"error-path:after-repaired-sign:sign-{sym(st)}", f"variant {variant}: {r}", scope=layout)
+            continue
+        st, data = call(dc.export)
+        if st != "ok":
+            o.v("dc-signature", f"error-path:after-repaired-sign:export-{sym(st)}", f"variant {variant}: {data}", scope=layout)
+            continue
+        judge(data, "after-repaired-sign", variant)
+        st, back = call(type(dc).parse, data)
+        if st != "ok" or back != dc or call(back.export) != ("ok", data):
+            o.v("dc-roundtrip", "error-path:after-repaired-sign:parse", f"variant {variant}: {back if st != 'ok' else 'differs'}", scope=layout)
+        o.distinct.append(f"errpath|{cls}|{variant}")
+    return o.result()
+
+
+# ---------------------------------------------------------------------------------------------
 # one configuration dictionary, several challenges
 
 
@@ -1547,7 +1637,7 @@ def w_reuse(case: dict) -> dict:
     return o.result()
 
 
-WORKERS = {"fam": w_classic, "lat": w_classic, "rot": w_classic, "bind": w_bind, "hist": w_hist, "reuse": w_reuse}
+WORKERS = {"fam": w_classic, "lat": w_classic, "rot": w_classic, "bind": w_bind, "hist": w_hist, "reuse": w_reuse, "errpath": w_errpath}
 WORKERS2 = {"fam": w_ele2, "lat": w_ele2, "hist": w_hist, "reuse": w_reuse}
 
 
@@ -1731,6 +1821,15 @@ def build_cases(tier: str, seed: int, ftab: list[dict], cli: bool) -> tuple[list
         reuse_done.add(fams[0]["kind"])
         for cls in classes_for(fams[0]):
             cases.append({"g": "reuse", "cls": cls, "fam": fkey(fams[0]), "seed": seed, "n": 3 if quick else 4})
+    # errpath: refused sign() and what the object hands out afterwards; every classic / EdgeLock v1 class on the first
+    # representative of each layout kind (thorough: of each class key)
+    err_done: set = set()
+    for key, fams in rep_list.items():
+        if quick and fams[0]["kind"] in err_done:
+            continue
+        err_done.add(fams[0]["kind"])
+        for cls in filter(classic, classes_for(fams[0])):
+            cases.append({"g": "errpath", "cls": cls, "fam": fkey(fams[0]), "seed": seed})
     # hist: object histories for every protocol class, on the first representative of each layout kind
     hist_done: set = set()
     for key, fams in rep_list.items():
@@ -1746,15 +1845,22 @@ def build_cases(tier: str, seed: int, ftab: list[dict], cli: bool) -> tuple[list
                     cases.append(c)
     # rot x keyset (x ca) full product on the first representative of each class key (quick: of each layout kind —
     # the RoT meta code reads no database value besides the layout)
+    # The ECC credential's hash length does read a database flag (SHA-256-always devices): (number of keys 1..4) x (used
+    # index) with the standard key list runs for the ECC classes on every class key also in quick.
     layouts_done: set = set()
     for key, fams in rep_list.items():
-        if quick and fams[0]["kind"] in layouts_done:
+        ecc_only = quick and fams[0]["kind"] in layouts_done
+        if ecc_only and fams[0]["kind"] != "plain":
             continue
         layouts_done.add(fams[0]["kind"])
         for cls in filter(classic, classes_for(fams[0])):
+            if ecc_only and CLASSES[cls]["meta"] != "ecc":
+                continue
             dims = dims_for(cls)
             for ri in range(len(dims["rot"])):
                 for ks in range(len(dims["keyset"])):
+                    if ecc_only and ks:
+                        continue
                     nkeys = dims["rot"][ri][0]
                     if (dims["keyset"][ks] == "dup-two-slots" and nkeys < 3) or (dims["keyset"][ks] == "all-same" and nkeys < 2):
                         continue  # the list is the standard one
